@@ -561,3 +561,91 @@ class SpatialCountsQuadtree:
         yield 'counts[i] == #{events whose (first) containing cell is i}', z3.Implies(
             z3.And(0 <= i, i < n), val == z3.ToReal(cnt(lambda t: to_z3(idx.f((t,))) == i, m)))
         yield 'total == number of events', to_real(sum_term(c.L, r)) == z3.ToReal(m)
+
+
+# ---------------------------------------------------------------------------------------------------
+# index helpers: plumbing over the lookup contracts
+# ---------------------------------------------------------------------------------------------------
+@contract
+class GetMagIdx:
+    qualname = CATCLS + '.get_mag_idx'
+    case = 'region with an equally spaced magnitude grid'
+    properties = ('C02', 'C03')
+
+    def params(c):
+        bins = grid(c, 'magnitudes')
+        region = c.obj(None, magnitudes=bins)
+        cat, data = mk_catalog(c, region=region)
+        return dict(self=cat, _data=data, _bins=bins)
+
+    def requires(c, self, _data, _bins):
+        return Bin1d_f64.requires(c, _data.fields['magnitude'], _bins, None, True)
+
+    def ensures(c, r, self, _data, _bins):
+        call = last_call(c, BIN1D)
+        yield 'the index comes from bin1d_vec (one call)', z3.BoolVal(call is not None and len(c.calls(BIN1D)) == 1)
+        if call is None:
+            return
+        loc = call[1]
+        yield 'on the magnitudes of the catalog and the magnitude edges of the region, last bin open (right_continuous=True)', z3.BoolVal(
+            loc['bins'] is _bins and loc.get('right_continuous') is True and loc.get('tol') is None and isinstance(loc['p'], Arr))
+        i = c.ctx.fresh_int('i!sk')
+        if isinstance(loc['p'], Arr):
+            yield 'event i is binned by its own magnitude', z3.And(to_z3(loc['p'].shape[0]) == _data.n, z3.Implies(
+                z3.And(0 <= i, i < _data.n), to_real(loc['p'].f((i,))) == to_real(_data.fields['magnitude'].f((i,)))))
+        yield 'and is returned as it is', z3.BoolVal(r is call[2])
+
+    def raises(c, exc, self, _data, _bins):
+        return None
+
+
+@contract
+class GetMagIdxNoRegion:
+    qualname = CATCLS + '.get_mag_idx'
+    case = 'catalog without region'
+    properties = ('C02', 'C03')
+
+    def params(c):
+        cat, data = mk_catalog(c, region=None)
+        return dict(self=cat)
+
+    def ensures(c, r, self):
+        yield 'no index without a magnitude grid', z3.BoolVal(False)
+
+    def raises(c, exc, self):
+        return [('a catalog without region raises the documented CSEPCatalogException', z3.BoolVal(exc.name == 'CSEPCatalogException'))]
+
+
+@contract
+class GetSpatialIdx:
+    qualname = CATCLS + '.get_spatial_idx'
+    case = 'Cartesian region (RI)'
+    properties = ('C03',)
+
+    def params(c):
+        L = Lattice(c)
+        cat, data = mk_catalog(c, region=L.obj(c))
+        return dict(self=cat, _data=data, _L=L)
+
+    def requires(c, self, _data, _L):
+        return _L.RI() + _L.grid_requires(c, _data.fields['longitude'])
+
+    def ensures(c, r, self, _data, _L):
+        call = last_call(c, GET_INDEX_OF)
+        yield 'the index comes from the region lookup (one call)', z3.BoolVal(call is not None and len(c.calls(GET_INDEX_OF)) == 1)
+        if call is None:
+            return
+        loc = call[1]
+        i = c.ctx.fresh_int('i!sk')
+        ok = isinstance(loc['lons'], Arr) and isinstance(loc['lats'], Arr)
+        yield 'longitudes first, latitudes second, of the events in catalog order', z3.BoolVal(ok) if not ok else z3.And(
+            to_z3(loc['lons'].shape[0]) == _data.n, to_z3(loc['lats'].shape[0]) == _data.n, z3.Implies(
+                z3.And(0 <= i, i < _data.n), z3.And(to_real(loc['lons'].f((i,))) == to_real(_data.fields['longitude'].f((i,))),
+                                                    to_real(loc['lats'].f((i,))) == to_real(_data.fields['latitude'].f((i,))))))
+        yield 'and is returned as it is', z3.BoolVal(r is call[2])
+
+    def raises(c, exc, self, _data, _L):
+        # the lookup raises ValueError for events outside the region (its own contract, C01): passed on unchanged
+        if exc.name == 'ValueError' and c.ctx.ghost.get('raised_by_contract') == GET_INDEX_OF:
+            return []
+        return None
